@@ -509,6 +509,7 @@ CLAIM = {
             "on the series [NaN, r1..rN] that metrics.trades builds (pandas Series modelled) for every loss / flat / gain pattern of "
             "2-3 returns and must equal their textbook definitions (starting balance a peak, N returns in every denominator). The "
             "daily sample count and timing are decided by interpreting both time loops for concrete lengths / steps (incl. steps of "
-            "one and several days). Not decided: longer return series, degenerate conventions.",
+            "one and several days). Streaks follow the chronological (closed_at) order of the trades, not their storage order; the memo of "
+            "Strategy.metrics is keyed on everything its value is computed from. Not decided: longer return series, degenerate conventions.",
     "note": "Trusted: pandas/numpy model for the used operations; interpreter semantics.",
 }
